@@ -6,6 +6,7 @@ import (
 	"os"
 	"os/exec"
 	"path/filepath"
+	"strconv"
 	"strings"
 	"sync"
 	"time"
@@ -146,6 +147,15 @@ func (rc *runCtx) llParams(h LLSpec) map[string]int {
 	if rc.thorough {
 		for k, v := range h.ParamsT {
 			m[k] = v
+		}
+	}
+	if o := os.Getenv("VERIF_SET"); o != "" { // experiments only
+		for _, kv := range strings.Split(o, ",") {
+			if i := strings.Index(kv, "="); i > 0 {
+				if v, err := strconv.Atoi(kv[i+1:]); err == nil {
+					m[kv[:i]] = v
+				}
+			}
 		}
 	}
 	return m
